@@ -17,7 +17,7 @@ import (
 func cTime(t time.Time) aval { return aval{k: kTime, tm: t} }
 
 func (an *analyzer) globalMapLookup(m, key aval, x *ssa.Lookup) (aval, bool) {
-	if an.globalMaps == nil || key.k != kConst || key.c.Kind() != constant.String {
+	if an.globalMaps == nil || key.k != kConst || (key.c.Kind() != constant.String && key.c.Kind() != constant.Int) {
 		return aval{}, false
 	}
 	for _, n := range m.notes {
@@ -28,7 +28,7 @@ func (an *analyzer) globalMapLookup(m, key aval, x *ssa.Lookup) (aval, bool) {
 		if !ok {
 			continue
 		}
-		v, found := tab[constant.StringVal(key.c)]
+		v, found := tab[constKey(key.c)]
 		if !found {
 			v = zeroOf(x.X.Type().Underlying().(*types.Map).Elem())
 		}
